@@ -11,6 +11,7 @@ import (
 	"fmt"
 	"io"
 	"os"
+	rdebug "runtime/debug"
 	"sort"
 	"strings"
 	"time"
@@ -522,4 +523,43 @@ func withPolicies(tier string, jobs []reg.Job, cacheOK func(reg.Job) bool) []reg
 		}
 	}
 	return out
+}
+
+// fdsUnder lists the process's open file descriptors that refer to a path under root (this
+// execution's scratch tree): files the os-backed server opened and has not closed. Counting all of
+// /proc/self/fd instead is disturbed by garbage collection: the finalizer of a file leaked by an
+// EARLIER execution may close it during this one.
+func fdsUnder(root string) []string {
+	es, err := os.ReadDir("/proc/self/fd")
+	if err != nil {
+		return nil
+	}
+	var out []string
+	for _, e := range es {
+		t, err := os.Readlink("/proc/self/fd/" + e.Name())
+		if err != nil {
+			continue
+		}
+		if t == root || strings.HasPrefix(t, root+"/") {
+			out = append(out, e.Name()+" -> "+t)
+		}
+	}
+	return out
+}
+
+// gcOff / gcOn bracket an execution whose oracle looks at open file descriptors: no collection runs
+// in between, so a leaked *os.File cannot be closed by its finalizer before the oracle has seen it
+// (which would make the verdict depend on the collector's timing).
+var gcSaved = -2
+
+func gcOff() {
+	gcOn()
+	gcSaved = rdebug.SetGCPercent(-1)
+}
+
+func gcOn() {
+	if gcSaved != -2 {
+		rdebug.SetGCPercent(gcSaved)
+		gcSaved = -2
+	}
 }
